@@ -29,6 +29,9 @@ static const LD PIL = 3.14159265358979323846264338327950288L;
 static const double RA = double(180.0L / PIL);
 static const double AW = 6378137.0;
 
+static ll g_dbg = -1;      // record id whose raw inputs / outputs are printed to stderr (debugging aid: drv_constr record S N ID)
+#define DBG(id, ...) do { if ((id) == g_dbg) fprintf(stderr, __VA_ARGS__); } while (0)
+
 template<class F> static string guarded(F f) {
   try { f(); return "ok"; }
   catch (const GeographicErr&) { return "throw"; }
@@ -62,6 +65,13 @@ static V3 cart(double a, double f, double lat, double lon) {     // closed-form 
 }
 static LD chord(const V3& p, const V3& q) { return sqrtl((p.x - q.x) * (p.x - q.x) + (p.y - q.y) * (p.y - q.y) + (p.z - q.z) * (p.z - q.z)); }
 static LD chordll(double a, double f, double lat1, double lon1, double lat2, double lon2) { return chord(cart(a, f, lat1, lon1), cart(a, f, lat2, lon2)); }
+// unit vector of the heading azi at (lat, lon): east-north frame of the geodetic normal
+static V3 tangent(double lat, double lon, double azi) {
+  LD sl = sinl(lat * PIL / 180), cl = cosl(lat * PIL / 180), so = sinl(lon * PIL / 180), co = cosl(lon * PIL / 180), sa = sinl(azi * PIL / 180), ca = cosl(azi * PIL / 180);
+  if (fabs(lat) == 90) cl = 0;
+  V3 e = {-so, co, 0}, n = {-sl * co, -sl * so, cl};
+  return { sa * e.x + ca * n.x, sa * e.y + ca * n.y, sa * e.z + ca * n.z };
+}
 static LD sind_(LD x) { return sinl(x * PIL / 180); }
 static LD cosd_(LD x) { return cosl(x * PIL / 180); }
 static double angdiff(double a, double b) { return Math::AngDiff(a, b); }
@@ -87,6 +97,13 @@ static void rpoint(vt::Rng& g, double& lat, double& lon) {
 }
 
 // ================================================================== projections
+// Observations common to the three projections:
+//   Forward(point)            -> (x, y, azi, rk)        compared with the geodesic quantities the class documentation names
+//   Reverse(x, y) of that     -> closure on the ellipsoid (chord, nm at WGS84 scale)
+//   Reverse(xi, yi) independent, compared with the documented construction, then Forward -> closure in the plane
+// Lengths are nm at WGS84 scale (multiplied by 6378137 / a); azimuth differences 1e-12 degree; scale differences 1e-15.
+static ll poleq(double lat) { return uq(90 - fabs(lat), 1e-9L); }
+
 // AzimuthalEquidistant
 static void rec_az(vt::Rng& g, ll id) {
   Earth E(int(g.range(0, NF - 1)), int(g.range(0, NA - 1)));
@@ -98,35 +115,40 @@ static void rec_az(vt::Rng& g, ll id) {
   if (w == 2) { lat = lat0 + g.uni(-1, 1) * pow(10.0, g.uni(-9, -1)); lon = lon0 + g.uni(-1, 1) * pow(10.0, g.uni(-9, -1)); } // very close
   if (w == 3) { lon = lon0; } if (w == 4) { lat0 = 0; lat = 0; }
   if (fabs(lat) > 90) lat = lat > 0 ? 90 : -90;
+  bool centre = lat == Math::LatFix(lat0) && angdiff(lon0, lon) == 0;
   double x = vt::sentinel(1), y = vt::sentinel(2), azi = vt::sentinel(3), rk = vt::sentinel(4);
   string out = guarded([&] { P.Forward(lat0, lon0, lat, lon, x, y, azi, rk); });
   double s12, a1, a2, m12, M12, M21, S12;
   E.g.GenInverse(lat0, lon0, lat, lon, Geodesic::ALL, s12, a1, a2, m12, M12, M21, S12);
   LD half = PIL * E.minr;
-  Rec r; r.str("e", "az").i("id", id).i("fi", E.fi).i("ai", E.ai).str("out", out).i("pl0", uq(90 - fabs(lat0), 1e-9L)).i("pl", uq(90 - fabs(lat), 1e-9L));
+  Rec r; r.str("e", "az").i("id", id).i("fi", E.fi).i("ai", E.ai).str("out", out).i("pl0", poleq(lat0)).i("pl", poleq(lat));
   r.i("sr", uq(s12 / half, 1e-6L));                            // distance / (pi min(a,b)) in ppm
-  r.i("snm", uq(s12 * E.sc, 1e-3L));                           // distance in mm (WGS84 scale), clipped
   r.i("dpos", uq(hypotl((LD)x - (LD)s12 * sind_(a1), (LD)y - (LD)s12 * cosd_(a1)) * E.sc, 1e-9L));
   r.i("dhyp", uq((hypotl((LD)x, (LD)y) - (LD)s12) * E.sc, 1e-9L));
-  // direction of (x, y) against azi1, as a transverse displacement at the distance s12
-  r.i("ddir", uq((LD)s12 * sind_(angdiff(Math::atan2d(x, y), a1)) * E.sc, 1e-9L));
-  r.i("dazi", uq(angdiff(azi, a2), 1e-12L));                   // azimuth at the point vs Inverse azi2, 1e-12 degree
+  r.i("ddir", uq((LD)s12 * sind_(angdiff(Math::atan2d(x, y), a1)) * E.sc, 1e-9L));   // direction of (x, y) against azi1, as a displacement
+  r.i("dazi", uq(angdiff(azi, a2), 1e-12L));
   r.i("drk", uq((LD)rk - (s12 > 0 ? (LD)m12 / (LD)s12 : 1.0L), 1e-15L));
-  // Forward then Reverse
+  // Forward then Reverse; the Reverse outputs against Direct(centre, atan2(x, y), hypot(x, y))
   double la = 0, lo = 0, az2 = 0, rk2 = 0;
   string rout = guarded([&] { P.Reverse(lat0, lon0, x, y, la, lo, az2, rk2); });
-  r.str("rout", rout).i("rt", uq(chordll(E.a, E.f, lat, lon, la, lo) * E.sc, 1e-9L));
-  r.i("rtazi", uq((LD)fabs(m12) * sind_(angdiff(az2, azi)) * E.sc, 1e-9L)).i("rtrk", uq((LD)rk2 - rk, 1e-12L));
-  r.b("rng", fabs(la) <= 90 && fabs(lo) <= 180);
+  double sr_ = hypot(x, y), lar, lor, azr, mr; E.g.Direct(lat0, lon0, Math::atan2d(x, y), sr_, lar, lor, azr, mr);
+  r.str("rout", rout).i("rt", uq(chordll(E.a, E.f, lat, lon, la, lo) * E.sc, 1e-9L)).b("rng", fabs(la) <= 90 && fabs(lo) <= 180);
+  r.i("rdpos", uq(chordll(E.a, E.f, lar, lor, la, lo) * E.sc, 1e-9L)).i("rdazi", uq(angdiff(az2, azr), 1e-12L));
+  r.i("rdrk", uq((LD)rk2 - (sr_ > 0 ? (LD)mr / (LD)sr_ : 1.0L), 1e-15L));
   // Reverse then Forward for an independent (x, y)
   double rad = g.uni(0, 1.2) * double(half); if (g.range(0, 5) == 0) rad = pow(10.0, g.uni(-6, 7)) / E.sc;
   double th = g.uni(-180, 180); if (g.range(0, 5) == 0) th = 90.0 * double(g.range(-2, 2));
-  double xi = rad * double(sind_(th)), yi = rad * double(cosd_(th)), lb, lob, azb, rkb, xo, yo, azo, rko;
+  double xi = rad * double(sind_(th)), yi = rad * double(cosd_(th));
+  int w2 = int(g.range(0, 15)); if (w2 == 0) { xi = 0; yi = 0; } if (w2 == 1) { xi = 0; yi = -0.0; } if (w2 == 2) { xi = -0.0; yi = 0; }
+  double lb = 0, lob = 0, azb = 0, rkb = 0, xo = 0, yo = 0, azo = 0, rko = 0;
   string r2 = guarded([&] { P.Reverse(lat0, lon0, xi, yi, lb, lob, azb, rkb); P.Forward(lat0, lon0, lb, lob, xo, yo, azo, rko); });
-  r.str("r2", r2).i("rr", uq(hypotl((LD)xi, (LD)yi) / half, 1e-6L)).i("dxy", uq(hypotl((LD)xo - xi, (LD)yo - yi) * E.sc, 1e-9L));
-  { LD ex = (LD)xo - xi, ey = (LD)yo - yi, ux = sind_(th), uy = cosd_(th);      // radial 1:1, transverse scaled by rk
-    r.i("dxyp", uq(hypotl(ex * ux + ey * uy, (ex * uy - ey * ux) * (LD)rkb) * E.sc, 1e-9L)); }
-  r.i("r2azi", uq((LD)rkb * hypotl((LD)xi, (LD)yi) * sind_(angdiff(azo, azb)) * E.sc, 1e-9L)).i("r2rk", uq((LD)rko - rkb, 1e-12L));
+  double si = hypot(xi, yi), lbr, lobr, azbr, mbr; E.g.Direct(lat0, lon0, Math::atan2d(xi, yi), si, lbr, lobr, azbr, mbr);
+  r.str("r2", r2).i("rr", uq((LD)si / half, 1e-6L)).i("plb", poleq(lbr));
+  r.i("r2dpos", uq(chordll(E.a, E.f, lbr, lobr, lb, lob) * E.sc, 1e-9L)).i("r2dazi", uq(angdiff(azb, azbr), 1e-12L));
+  r.i("r2drk", uq((LD)rkb - (si > 0 ? (LD)mbr / (LD)si : 1.0L), 1e-15L)).b("r2rng", fabs(lb) <= 90 && fabs(lob) <= 180);
+  { LD ex = (LD)xo - xi, ey = (LD)yo - yi, ux = sind_(th), uy = cosd_(th);      // radial 1:1, transverse scaled by rk (displacement on the ellipsoid)
+    r.i("dxy", uq(hypotl(ex * ux + ey * uy, (ex * uy - ey * ux) * (LD)rkb) * E.sc, 1e-9L)); }
+  r.str("kf", "none"); (void) centre;
   r.emit();
 }
 
@@ -135,19 +157,18 @@ static void rec_gn(vt::Rng& g, ll id) {
   Earth E(int(g.range(0, NF - 1)), int(g.range(0, NA - 1)));
   Gnomonic P(E.g);
   double lat0, lon0, lat, lon; rpoint(g, lat0, lon0);
-  // points mostly inside the horizon (random azimuth and distance), sometimes anywhere
-  int w = int(g.range(0, 11));
+  int w = int(g.range(0, 11));       // points mostly inside the horizon (random azimuth and distance), sometimes anywhere
   if (w <= 7) {
     double d = g.uni(0, 0.55) * PIL * E.minr; if (w == 0) d = pow(10.0, g.uni(-6, 6)) / E.sc; if (w == 1) d = (0.5 + g.uni(-1, 1) * pow(10.0, g.uni(-9, -1))) * PIL * E.minr;
     double az = g.uni(-180, 180); if (w == 2) az = 90.0 * double(g.range(-2, 2));
     E.g.Direct(lat0, lon0, az, d, lat, lon);
   } else rpoint(g, lat, lon);
-  if (w == 8) { lat = lat0; lon = lon0; }
+  if (w == 8) { lat = Math::LatFix(lat0); lon = lon0; }
   double x = vt::sentinel(1), y = vt::sentinel(2), azi = vt::sentinel(3), rk = vt::sentinel(4);
   string out = guarded([&] { P.Forward(lat0, lon0, lat, lon, x, y, azi, rk); });
   double s12, a1, a2, m12, M12, M21, S12;
   E.g.GenInverse(lat0, lon0, lat, lon, Geodesic::ALL, s12, a1, a2, m12, M12, M21, S12);
-  Rec r; r.str("e", "gn").i("id", id).i("fi", E.fi).i("ai", E.ai).str("out", out).i("pl0", uq(90 - fabs(lat0), 1e-9L)).i("pl", uq(90 - fabs(lat), 1e-9L));
+  Rec r; r.str("e", "gn").i("id", id).i("fi", E.fi).i("ai", E.ai).str("out", out).i("pl0", poleq(lat0)).i("pl", poleq(lat));
   r.i("hz", sgn(M12)).i("Mq", sq(M12, 1e-9L)).b("nanxy", std::isnan(x) && std::isnan(y)).b("anynan", std::isnan(x) || std::isnan(y));
   r.b("aznan", std::isnan(azi) || std::isnan(rk));
   LD rho = (LD)m12 / (LD)M12;
@@ -155,21 +176,26 @@ static void rec_gn(vt::Rng& g, ll id) {
   r.i("dpos", uq(hypotl((LD)x - rho * sind_(a1), (LD)y - rho * cosd_(a1)) * (LD)M12 * M12 * E.sc, 1e-9L));
   r.i("dazi", uq(angdiff(azi, a2), 1e-12L)).i("drk", uq((LD)rk - M12, 1e-15L));
   double la = 0, lo = 0, az2 = 0, rk2 = 0; string rout = "none";
-  if (out == "ok" && !std::isnan(x)) {
+  if (out == "ok" && !std::isnan(x) && !std::isnan(y)) {
     rout = guarded([&] { P.Reverse(lat0, lon0, x, y, la, lo, az2, rk2); });
     r.i("rt", uq(chordll(E.a, E.f, lat, lon, la, lo) * E.sc, 1e-9L)).b("rtnan", std::isnan(la) || std::isnan(lo) || std::isnan(az2) || std::isnan(rk2));
-    r.i("rtazi", uq((LD)fabs(m12) * sind_(angdiff(az2, azi)) * E.sc, 1e-9L)).i("rtrk", uq((LD)rk2 - rk, 1e-12L));
     r.b("rng", std::isnan(la) || (fabs(la) <= 90 && fabs(lo) <= 180));
-  } else r.i("rt", -1).b("rtnan", false).i("rtazi", -1).i("rtrk", -1).b("rng", true);
+  } else r.i("rt", -1).b("rtnan", false).b("rng", true);
   r.str("rout", rout);
-  // Reverse then Forward for an independent (x, y); radius log-uniform in [1e-9 a, 1e4 a]
+  // Reverse then Forward for an independent (x, y); radius log-uniform in [1e-9 a, 1e4 a] or uniform in [0, 3 a]
   double rad = E.a * pow(10.0, g.uni(-9, 4)); if (g.coin()) rad = E.a * g.uni(0, 3);
   double th = g.uni(-180, 180); if (g.range(0, 5) == 0) th = 90.0 * double(g.range(-2, 2));
-  double xi = rad * double(sind_(th)), yi = rad * double(cosd_(th)), lb = 0, lob = 0, azb = 0, rkb = 0, xo = 0, yo = 0, azo = 0, rko = 0;
+  double xi = rad * double(sind_(th)), yi = rad * double(cosd_(th));
+  if (g.range(0, 15) == 0) { xi = 0; yi = g.coin() ? 0.0 : -0.0; rad = 0; }
+  double lb = 0, lob = 0, azb = 0, rkb = 0, xo = 0, yo = 0, azo = 0, rko = 0;
   string r2 = guarded([&] { P.Reverse(lat0, lon0, xi, yi, lb, lob, azb, rkb); P.Forward(lat0, lon0, lb, lob, xo, yo, azo, rko); });
   r.str("r2", r2).i("rr", uq((LD)rad / E.a, 1e-3L)).b("r2nan", std::isnan(lb) || std::isnan(lob) || std::isnan(azb) || std::isnan(rkb));
-  r.b("r2allnan", std::isnan(lb) && std::isnan(lob) && std::isnan(azb) && std::isnan(rkb));
-  r.i("dxy", uq(hypotl((LD)xo - xi, (LD)yo - yi) * (LD)rkb * rkb * E.sc, 1e-9L)).i("r2rk", uq((LD)rko - rkb, 1e-12L));
+  r.b("r2allnan", std::isnan(lb) && std::isnan(lob) && std::isnan(azb) && std::isnan(rkb)).i("plb", poleq(lb)).b("r2rng", std::isnan(lb) || (fabs(lb) <= 90 && fabs(lob) <= 180));
+  // the point returned by Reverse lies on the geodesic leaving the centre with azimuth atan2(x, y); its azimuth and scale are those of
+  // the geodesic centre -> point
+  double sb, ab1, ab2, mb, Mb, Mb21, Sb; E.g.GenInverse(lat0, lon0, lb, lob, Geodesic::ALL, sb, ab1, ab2, mb, Mb, Mb21, Sb);
+  r.i("r2dir", uq((LD)mb * sind_(angdiff(Math::atan2d(xi, yi), ab1)) * E.sc, 1e-9L)).i("r2dazi", uq((LD)fabs(mb) * sind_(angdiff(azb, ab2)) * E.sc, 1e-9L)).i("r2drk", uq((LD)rkb - Mb, 1e-15L));
+  r.i("dxy", uq(hypotl((LD)xo - xi, (LD)yo - yi) * (LD)rkb * rkb * E.sc, 1e-9L));
   r.emit();
 }
 
@@ -178,25 +204,25 @@ static void rec_cs(vt::Rng& g, ll id) {
   Earth E(int(g.range(0, NF - 1)), int(g.range(0, NA - 1)));
   double lat0, lon0, lat, lon; rpoint(g, lat0, lon0); rpoint(g, lat, lon);
   int w = int(g.range(0, 11));
-  if (w == 0) lon = lon0; if (w == 1) lon = lon0 + 180; if (w == 2) { lat = lat0; lon = lon0; }
+  if (w == 0) lon = lon0; if (w == 1) lon = lon0 + 180; if (w == 2) { lat = Math::LatFix(lat0); lon = lon0; }
   if (w == 3) lon = lon0 + (g.coin() ? 1 : -1) * (90 + g.uni(-1, 1) * pow(10.0, g.uni(-9, 0)));
   if (w == 4) lon = lon0 + g.uni(-1, 1) * pow(10.0, g.uni(-9, 0));
   CassiniSoldner P(lat0, lon0, E.g);
   double x = vt::sentinel(1), y = vt::sentinel(2), azi = vt::sentinel(3), rk = vt::sentinel(4);
   string out = guarded([&] { P.Forward(lat, lon, x, y, azi, rk); });
   LD Q = E.ell.QuarterMeridian();
-  Rec r; r.str("e", "cs").i("id", id).i("fi", E.fi).i("ai", E.ai).str("out", out).b("init", P.Init()).i("pl0", uq(90 - fabs(lat0), 1e-9L)).i("pl", uq(90 - fabs(lat), 1e-9L));
+  Rec r; r.str("e", "cs").i("id", id).i("fi", E.fi).i("ai", E.ai).str("out", out).b("init", P.Init()).i("pl0", poleq(lat0)).i("pl", poleq(lat));
   r.b("org", vt::bits(P.LatitudeOrigin()) == vt::bits(Math::LatFix(lat0)) && fabs(angdiff(P.LongitudeOrigin(), lon0)) == 0);
   // the documented construction: north along the central meridian by y, turn clockwise 90 degrees, go x
   double lat1, lon1, azm; E.g.Direct(lat0, lon0, 0.0, y, lat1, lon1, azm);
   double lat2, lon2, azd, M12d, M21d; E.g.Direct(lat1, lon1, azm + 90, x, lat2, lon2, azd, M12d, M21d);
   r.i("dend", uq(chordll(E.a, E.f, lat, lon, lat2, lon2) * E.sc, 1e-9L));
-  r.i("dazi", uq((LD)fabs(M12d) * (LD)E.a * sind_(angdiff(azi, azd)) * E.sc, 1e-9L)).i("drk", uq((LD)rk - M12d, 1e-12L));
-  // the foot is the closest point of the meridian: distance and perpendicularity from the Inverse problem foot -> point
+  // the foot is the closest point of the meridian: distance and perpendicularity from the inverse problem foot -> point
   double s, aA, aB, m12, M12, M21, S12;
   E.g.GenInverse(lat1, lon1, lat, lon, Geodesic::ALL, s, aA, aB, m12, M12, M21, S12);
-  r.i("dx", uq(((LD)fabs(x) - s) * E.sc, 1e-9L));
-  r.i("dperp", uq((LD)s * cosd_(angdiff(azm, aA)) * E.sc, 1e-9L));
+  r.i("dx", uq(((LD)fabs(x) - s) * E.sc, 1e-9L)).i("dperp", uq((LD)s * cosd_(angdiff(azm, aA)) * E.sc, 1e-9L));
+  // azimuth of the easting direction and reciprocal northing scale: those of the perpendicular geodesic at the point
+  r.i("dazi", uq((LD)fabs(m12) * sind_(angdiff(azi, azd)) * E.sc, 1e-9L)).i("dazia", uq(angdiff(azi, azd), 1e-12L)).i("drk", uq((LD)rk - M12d, 1e-15L));
   r.i("xq", uq((LD)fabs(x) / Q, 1e-6L)).i("yq", uq((LD)fabs(y) / Q, 1e-6L));
   // y is the meridian distance of the foot (Ellipsoid::MeridianDistance, independent code); over a pole when the foot lies
   // on the opposite meridian
@@ -211,26 +237,30 @@ static void rec_cs(vt::Rng& g, ll id) {
   // Forward then Reverse
   double la = 0, lo = 0, az2 = 0, rk2 = 0;
   string rout = guarded([&] { P.Reverse(x, y, la, lo, az2, rk2); });
-  r.str("rout", rout).i("rt", uq(chordll(E.a, E.f, lat, lon, la, lo) * E.sc, 1e-9L));
-  r.i("rtazi", uq((LD)fabs(rk) * (LD)E.a * sind_(angdiff(az2, azi)) * E.sc, 1e-9L)).i("rtrk", uq((LD)rk2 - rk, 1e-12L));
-  r.b("rng", fabs(la) <= 90 && fabs(lo) <= 180);
-  // Reverse then Forward for an independent (x, y)
+  r.str("rout", rout).i("rt", uq(chordll(E.a, E.f, lat, lon, la, lo) * E.sc, 1e-9L)).b("rng", fabs(la) <= 90 && fabs(lo) <= 180);
+  // Reverse for an independent (x, y) against the documented construction, then Forward
   double xi = g.uni(-1.1, 1.1) * double(Q), yi = g.uni(-2, 2) * double(Q);
   if (g.range(0, 5) == 0) xi = (g.coin() ? 1 : -1) * pow(10.0, g.uni(-6, 6)) / E.sc; if (g.range(0, 5) == 0) yi = (g.coin() ? 1 : -1) * pow(10.0, g.uni(-6, 6)) / E.sc;
   if (g.range(0, 9) == 0) xi = 0; if (g.range(0, 9) == 0) yi = 0;
   double lb = 0, lob = 0, azb = 0, rkb = 0, xo = 0, yo = 0, azo = 0, rko = 0;
   string r2 = guarded([&] { P.Reverse(xi, yi, lb, lob, azb, rkb); P.Forward(lb, lob, xo, yo, azo, rko); });
-  r.str("r2", r2).i("rx", uq((LD)fabs(xi) / Q, 1e-6L)).i("ry", uq((LD)fabs(yi) / Q, 1e-6L));
+  double l1a, l1o, am; E.g.Direct(lat0, lon0, 0.0, yi, l1a, l1o, am);
+  double l2a, l2o, a2d, Mr, Mr21; E.g.Direct(l1a, l1o, am + 90, xi, l2a, l2o, a2d, Mr, Mr21);
+  r.str("r2", r2).i("rx", uq((LD)fabs(xi) / Q, 1e-6L)).i("ry", uq((LD)fabs(yi) / Q, 1e-6L)).i("plb", poleq(l2a));
+  r.i("r2dpos", uq(chordll(E.a, E.f, l2a, l2o, lb, lob) * E.sc, 1e-9L)).i("r2dazi", uq(angdiff(azb, a2d), 1e-12L)).i("r2drk", uq((LD)rkb - Mr, 1e-15L));
+  r.b("r2rng", fabs(lb) <= 90 && fabs(lob) <= 180);
   // northing differences are measured on the ellipsoid: dy * rk
-  r.i("dxy", uq(hypotl((LD)xo - xi, ((LD)yo - yi) * (LD)rkb) * E.sc, 1e-9L)).i("r2rk", uq((LD)rko - rkb, 1e-12L));
+  r.i("dxy", uq(hypotl((LD)xo - xi, ((LD)yo - yi) * (LD)rkb) * E.sc, 1e-9L));
   r.emit();
 }
 
+
 // ================================================================== intersections
 struct XE {   // ellipsoid + solver for the intersection laws
-  int fi; double a, f, sc; bool exact; Geodesic g; Intersect I;
-  XE(int fi_, double a_, double f_, bool ex) : fi(fi_), a(a_), f(f_), sc(AW / a_), exact(ex), g(a_, f_, ex), I(g) {}
+  int fi; double a, f, sc, minr; bool exact; Geodesic g; Intersect I;
+  XE(int fi_, double a_, double f_, bool ex) : fi(fi_), a(a_), f(f_), sc(AW / a_), minr(min(a_, a_ * (1 - f_))), exact(ex), g(a_, f_, ex), I(g) {}
 };
+// |f| <= 0.02 with the series solver, larger |f| with exact = true as the documentation prescribes
 static const double XF[] = {1 / 298.257223563, 0, -1 / 298.257223563, 0.01, -0.01, 0.02, -0.02, 0.1, -0.1, 0.2, -0.25};
 static const int NXF = 11;
 static XE* xearth(vt::Rng& g) {
@@ -245,13 +275,38 @@ static XE* xearth(vt::Rng& g) {
   cache[key] = e; return e;
 }
 struct Ln { double lat, lon, azi; };
-// distance between the points at displacements x and y, nm at WGS84 scale
-static ll zres(const XE& E, const GeodesicLine& lx, const GeodesicLine& ly, double x, double y, double* aX = nullptr, double* aY = nullptr) {
+typedef Intersect::Point Pt;
+// an intersection candidate: separation of the two points (nm at WGS84 scale) and |sin| of the crossing angle there
+struct Hit { ll z; LD sn; bool anti; };
+static Hit hit(const XE& E, const GeodesicLine& lx, const GeodesicLine& ly, double x, double y) {
   double la, lo, az, lb, lob, azb; lx.Position(x, la, lo, az); ly.Position(y, lb, lob, azb);
-  if (aX) *aX = az; if (aY) *aY = azb;
-  return uq(chordll(E.a, E.f, la, lo, lb, lob) * E.sc, 1e-9L);
+  Hit h; h.z = uq(chordll(E.a, E.f, la, lo, lb, lob) * E.sc, 1e-9L);
+  // crossing angle from the two headings as unit vectors in space (well defined at the poles too)
+  V3 t1 = tangent(la, lo, az), t2 = tangent(lb, lob, azb);
+  LD cx = t1.y * t2.z - t1.z * t2.y, cy = t1.z * t2.x - t1.x * t2.z, cz = t1.x * t2.y - t1.y * t2.x;
+  h.sn = min((LD)1, sqrtl(cx * cx + cy * cy + cz * cz)); h.anti = t1.x * t2.x + t1.y * t2.y + t1.z * t2.z < 0;
+  return h;
 }
 static LD l1(double x, double y, double px, double py) { return fabsl((LD)x - px) + fabsl((LD)y - py); }
+static LD l1(const Pt& p, const Pt& q) { return l1(p.first, p.second, q.first, q.second); }
+
+// Comparison of a returned intersection p with the list `all` of every intersection around the origin p0.
+// An intersection is located along the lines only to (separation tolerance) / sin(crossing angle); differences of displacements are
+// therefore multiplied by the sine of the crossing angle (the smaller of the two), which turns them into separations across the lines.
+//   dminc : min over the list of (L1(e, p0) - L1(p, p0)) * sin, signed (negative = some listed intersection is closer than p)
+//   inallc: min over the list of L1(e, p) * sin (p itself is in the list)
+struct Cmp { ll dminc, inallc, n; };
+static Cmp cmp_all(const XE& E, const GeodesicLine& lx, const GeodesicLine& ly, const Pt& p, const Pt& p0, const vector<Pt>& all, LD snp,
+                   const Pt* skip = nullptr) {
+  Cmp c; c.n = 0; LD dm = 1e300L, in = 1e300L, d0 = l1(p, p0);
+  for (auto& q : all) {
+    LD sn = min(snp, hit(E, lx, ly, q.first, q.second).sn);
+    if (skip && l1(q, *skip) * E.sc <= 1.0L) continue;                   // the excluded intersection itself (within 1 m along the lines)
+    ++c.n; dm = min(dm, (l1(q, p0) - d0) * sn); in = min(in, l1(q, p) * sn);
+  }
+  c.dminc = c.n ? sq(dm * E.sc, 1e-9L) : 0; c.inallc = c.n ? uq(in * E.sc, 1e-9L) : -1;
+  return c;
+}
 
 // two random lines; mk = how they were constructed (from the inputs only)
 static string rlines(vt::Rng& g, const XE& E, Ln& X, Ln& Y) {
@@ -259,42 +314,50 @@ static string rlines(vt::Rng& g, const XE& E, Ln& X, Ln& Y) {
   if (fabs(X.lat) == 90) X.lat = X.lat > 0 ? 89.5 : -89.5; if (fabs(Y.lat) == 90) Y.lat = Y.lat > 0 ? 89.5 : -89.5;
   int w = int(g.range(0, 15));
   if (w == 0) X.azi = 90.0 * double(g.range(-2, 2)); if (w == 1) { X.lat = 0; X.azi = g.coin() ? 90 : -90; }
-  if (w == 2) { X.azi = g.coin() ? 0 : 180; Y.azi = g.coin() ? 0 : 180; }                     // two meridians
+  if (w == 2) { X.azi = g.coin() ? 0 : 180; Y.azi = g.coin() ? 0 : 180; return fabs(sin((X.lon - Y.lon) * double(PIL) / 180)) < 1e-2 ? "near" : "merid2"; }   // two meridians
   if (w == 3 || w == 4 || w == 5) {      // Y is the same geodesic as X (w == 3 parallel, w == 4 antiparallel) or crosses it at a tiny angle
     double s = g.uni(-1.5, 1.5) * PIL * E.a, az; E.g.Direct(X.lat, X.lon, X.azi, s, Y.lat, Y.lon, az);
+    if (fabs(Y.lat) > 89.9) return "near";
     if (w == 3) { Y.azi = az; return "coin+"; }
     if (w == 4) { Y.azi = az + 180; return "coin-"; }
     Y.azi = az + (g.coin() ? 0 : 180) + (g.coin() ? 1 : -1) * pow(10.0, g.uni(-13, -2)); return "near";
   }
-  if (w == 6) { Y.lat = X.lat; Y.lon = X.lon; }                                                 // common starting point
+  if (w == 6) { Y.lat = X.lat; Y.lon = X.lon; if (fabs(sin((X.azi - Y.azi) * double(PIL) / 180)) < 1e-2) return "near"; }   // common starting point
   if (w == 7) { X.lat = 0; X.azi = 90; Y.lat = 0; Y.azi = g.coin() ? 90 : -90; return Y.azi == 90 ? "coin+" : "coin-"; }  // equator twice
-  if (w == 8) { X.azi = 0; Y.azi = g.coin() ? 0 : 180; Y.lon = X.lon + (g.coin() ? 0 : 180); return "merid"; }   // same meridian plane
+  if (w == 8) { X.azi = 0; bool samelon = g.coin(), north = g.coin(); Y.azi = north ? 0 : 180; Y.lon = X.lon + (samelon ? 0 : 180); return samelon == north ? "coin+" : "coin-"; }   // same meridian plane
   return "gen";
+}
+
+// spacing of doubles at the larger of the two displacements (nm at WGS84 scale, rounded up): the displacements themselves cannot be
+// more precise than that
+static ll ulpq(const XE& E, double x, double y) {
+  double m = max(fabs(x), fabs(y)); if (!std::isfinite(m)) return 0;
+  return uq(((LD)std::nextafter(m, numeric_limits<double>::infinity()) - m) * E.sc, 1e-9L);
+}
+static void put_hit(Rec& r, const XE& E, const Pt& p, const Hit& h, int c) {
+  r.i("z", h.z).i("um", ulpq(E, p.first, p.second)).i("sn", uq(h.sn, 1e-9L)).i("anti", h.anti ? 1 : 0).i("c", c);
 }
 
 static void rec_xc(vt::Rng& g, ll id) {
   XE& E = *xearth(g); Ln X, Y; string mk = rlines(g, E, X, Y);
-  double p0x = 0, p0y = 0; if (g.range(0, 2) == 0) { p0x = g.uni(-3, 3) * PIL * E.a; p0y = g.uni(-3, 3) * PIL * E.a; }
+  Pt p0(0, 0); if (g.range(0, 2) == 0) p0 = Pt(g.uni(-3, 3) * PIL * E.a, g.uni(-3, 3) * PIL * E.a);
   GeodesicLine lx = E.g.Line(X.lat, X.lon, X.azi, Intersect::LineCaps), ly = E.g.Line(Y.lat, Y.lon, Y.azi, Intersect::LineCaps);
-  int c = -9; Intersect::Point p(0, 0);
-  string out = guarded([&] { p = E.I.Closest(lx, ly, Intersect::Point(p0x, p0y), &c); });
-  // same call through the position + azimuth interface
-  int c2 = -9; Intersect::Point p2(0, 0);
-  guarded([&] { p2 = E.I.Closest(X.lat, X.lon, X.azi, Y.lat, Y.lon, Y.azi, Intersect::Point(p0x, p0y), &c2); });
-  double aX = 0, aY = 0;
-  Rec r; r.str("e", "xc").i("id", id).i("fi", E.fi).b("ex", E.exact).str("mk", mk).str("out", out).i("c", c);
+  int c = -9; Pt p(0, 0);
+  string out = guarded([&] { p = E.I.Closest(lx, ly, p0, &c); });
+  int c2 = -9; Pt p2(0, 0);           // same call through the position + azimuth interface
+  guarded([&] { p2 = E.I.Closest(X.lat, X.lon, X.azi, Y.lat, Y.lon, Y.azi, p0, &c2); });
+  DBG(id, "xc a=%.17g f=%.17g exact=%d X=(%.17g %.17g %.17g) Y=(%.17g %.17g %.17g) p0=(%.17g %.17g) -> x=%.17g y=%.17g c=%d\n", E.a, E.f, (int) E.exact, X.lat, X.lon, X.azi, Y.lat, Y.lon, Y.azi, p0.first, p0.second, p.first, p.second, c);
+  Rec r; r.str("e", "xc").i("id", id).i("fi", E.fi).b("ex", E.exact).str("mk", mk).str("out", out);
   r.b("same", vt::bits(p.first) == vt::bits(p2.first) && vt::bits(p.second) == vt::bits(p2.second) && c == c2);
   r.b("fin", std::isfinite(p.first) && std::isfinite(p.second));
-  r.i("z", zres(E, lx, ly, p.first, p.second, &aX, &aY));
-  r.i("par", uq(sind_(angdiff(aX, aY)), 1e-12L)).i("anti", fabs(angdiff(aX, aY)) > 90 ? 1 : 0);
-  LD d0 = l1(p.first, p.second, p0x, p0y);
+  Hit h = hit(E, lx, ly, p.first, p.second); put_hit(r, E, p, h, c);
+  LD d0 = l1(p, p0);
   r.i("dq", uq(d0 / (PIL * E.a), 1e-6L));
   // every intersection within the same distance (+ 1 km): none may be closer, and the closest must be among them
-  vector<int> cs; vector<Intersect::Point> all;
-  string aout = guarded([&] { all = E.I.All(lx, ly, double(d0) + 1000 / E.sc, cs, Intersect::Point(p0x, p0y)); });
-  LD dmin = 1e300L, inall = 1e300L;
-  for (auto& q : all) { dmin = min(dmin, l1(q.first, q.second, p0x, p0y) - d0); inall = min(inall, l1(q.first, q.second, p.first, p.second)); }
-  r.str("aout", aout).i("na", (ll) all.size()).i("dmin", all.empty() ? 0 : sq(dmin * E.sc, 1e-9L)).i("inall", all.empty() ? -1 : uq(inall * E.sc, 1e-9L));
+  vector<int> cs; vector<Pt> all;
+  string aout = guarded([&] { all = E.I.All(lx, ly, double(d0) + 1000 / E.sc, cs, p0); });
+  Cmp m = cmp_all(E, lx, ly, p, p0, all, h.sn);
+  r.str("aout", aout).i("na", m.n).i("dminc", m.dminc).i("inallc", m.inallc).str("kf", "none");
   r.emit();
 }
 
@@ -302,32 +365,26 @@ static void rec_xn(vt::Rng& g, ll id) {
   XE& E = *xearth(g); Ln X; rpoint(g, X.lat, X.lon); if (fabs(X.lat) == 90) X.lat = X.lat > 0 ? 89 : -89;
   X.azi = g.uni(-180, 180); double aziY = g.uni(-180, 180);
   string mk = "gen"; int w = int(g.range(0, 9));
+  if (w == 3) { X.azi = 90.0 * double(g.range(-2, 2)); } if (w == 4) { X.lat = 0; X.azi = 90; }
   if (w == 0) { aziY = X.azi; mk = "coin+"; } if (w == 1) { aziY = X.azi + 180; mk = "coin-"; }
   if (w == 2) { aziY = X.azi + (g.coin() ? 0 : 180) + (g.coin() ? 1 : -1) * pow(10.0, g.uni(-13, -2)); mk = "near"; }
-  if (w == 3) { X.azi = 90.0 * double(g.range(-2, 2)); } if (w == 4) { X.lat = 0; X.azi = 90; }
   if (mk == "gen" && fabs(sin(angdiff(X.azi, aziY) * double(PIL) / 180)) < 1e-2) mk = "near";
   GeodesicLine lx = E.g.Line(X.lat, X.lon, X.azi, Intersect::LineCaps), ly = E.g.Line(X.lat, X.lon, aziY, Intersect::LineCaps);
-  int c = -9; Intersect::Point p(0, 0);
+  int c = -9; Pt p(0, 0);
   string out = guarded([&] { p = E.I.Next(lx, ly, &c); });
-  int c2 = -9; Intersect::Point p2(0, 0);
+  int c2 = -9; Pt p2(0, 0);
   guarded([&] { p2 = E.I.Next(X.lat, X.lon, X.azi, aziY, &c2); });
-  double aX = 0, aY = 0;
-  Rec r; r.str("e", "xn").i("id", id).i("fi", E.fi).b("ex", E.exact).str("mk", mk).str("out", out).i("c", c);
+  DBG(id, "xn a=%.17g f=%.17g exact=%d X=(%.17g %.17g %.17g) aziY=%.17g -> x=%.17g y=%.17g c=%d\n", E.a, E.f, (int) E.exact, X.lat, X.lon, X.azi, aziY, p.first, p.second, c);
+  Rec r; r.str("e", "xn").i("id", id).i("fi", E.fi).b("ex", E.exact).str("mk", mk).str("out", out);
   r.b("same", vt::bits(p.first) == vt::bits(p2.first) && vt::bits(p.second) == vt::bits(p2.second) && c == c2);
   r.b("fin", std::isfinite(p.first) && std::isfinite(p.second));
-  r.i("z", zres(E, lx, ly, p.first, p.second, &aX, &aY));
-  r.i("par", uq(sind_(angdiff(aX, aY)), 1e-12L)).i("anti", fabs(angdiff(aX, aY)) > 90 ? 1 : 0);
-  LD d0 = l1(p.first, p.second, 0, 0);
+  Hit h = hit(E, lx, ly, p.first, p.second); put_hit(r, E, p, h, c);
+  LD d0 = l1(p, Pt(0, 0));
   r.i("dq", uq(d0 / (PIL * E.a), 1e-6L)).i("d0m", uq(d0 * E.sc, 1.0L));
-  vector<int> cs; vector<Intersect::Point> all;
+  vector<int> cs; vector<Pt> all;
   string aout = guarded([&] { all = E.I.All(lx, ly, double(d0) + 1000 / E.sc, cs); });
-  LD dmin = 1e300L, inall = 1e300L; ll nother = 0, norigin = 0;
-  for (auto& q : all) {
-    LD dq = l1(q.first, q.second, 0, 0);
-    if (dq * E.sc <= 1.0L) { ++norigin; continue; }       // the starting intersection itself
-    ++nother; dmin = min(dmin, dq - d0); inall = min(inall, l1(q.first, q.second, p.first, p.second));
-  }
-  r.str("aout", aout).i("na", nother).i("norg", norigin).i("dmin", nother ? sq(dmin * E.sc, 1e-9L) : 0).i("inall", nother ? uq(inall * E.sc, 1e-9L) : -1);
+  Pt org(0, 0); Cmp m = cmp_all(E, lx, ly, p, org, all, h.sn, &org);
+  r.str("aout", aout).i("na", m.n).i("nall", (ll) all.size()).i("dminc", m.dminc).i("inallc", m.inallc).str("kf", "none");
   r.emit();
 }
 
@@ -338,106 +395,112 @@ static void rec_xs(vt::Rng& g, ll id) {
   int w = int(g.range(0, 9));
   // segment lengths: mostly short to medium so that many pairs intersect; always well below the half circumference
   auto seg = [&](double lat, double lon, double& latb, double& lonb, double scale) {
-    double az = g.uni(-180, 180), d = g.uni(0.001, scale) * PIL * std::min(E.a, E.a * (1 - E.f)); E.g.Direct(lat, lon, az, d, latb, lonb); };
+    double az = g.uni(-180, 180), d = g.uni(0.001, scale) * PIL * E.minr; E.g.Direct(lat, lon, az, d, latb, lonb); };
   if (fabs(la1) == 90) la1 = la1 > 0 ? 89 : -89; if (fabs(lb1) == 90) lb1 = lb1 > 0 ? 89 : -89;
   string mk = "gen";
-  if (w <= 5) {     // make Y start near a point of X so that the segments are likely to cross
+  if (w <= 5) {     // make Y pass near a point of X so that the segments are likely to cross
     seg(la1, lo1, la2, lo2, w <= 2 ? 0.2 : 0.85);
     GeodesicLine t = E.g.InverseLine(la1, lo1, la2, lo2); double mlat, mlon; t.Position(g.uni(0, 1) * t.Distance(), mlat, mlon);
-    double az = g.uni(-180, 180), d = g.uni(0, 0.3) * t.Distance(); double t1, t2; E.g.Direct(mlat, mlon, az, d, t1, t2); lb1 = t1; lob1 = t2;
+    double az = g.uni(-180, 180), d = g.uni(0, 0.3) * t.Distance(); E.g.Direct(mlat, mlon, az, d, lb1, lob1);
     E.g.Direct(mlat, mlon, az + 180 + g.uni(-5, 5), g.uni(0, 0.4) * t.Distance(), lb2, lob2);
   } else if (w == 6) { seg(la1, lo1, la2, lo2, 0.85); seg(lb1, lob1, lb2, lob2, 0.85); }
   else if (w == 7) {   // Y shares an end point with X
-    seg(la1, lo1, la2, lo2, 0.5); lb1 = g.coin() ? la1 : la2; lob1 = lb1 == la1 ? lo1 : lo2; seg(lb1, lob1, lb2, lob2, 0.5); mk = "corner";
+    seg(la1, lo1, la2, lo2, 0.5); bool first = g.coin(); lb1 = first ? la1 : la2; lob1 = first ? lo1 : lo2; seg(lb1, lob1, lb2, lob2, 0.5); mk = "corner";
   } else if (w == 8) { // Y is a piece of the geodesic of X (coincident)
     seg(la1, lo1, la2, lo2, 0.4); GeodesicLine t = E.g.InverseLine(la1, lo1, la2, lo2);
     t.Position(g.uni(-0.5, 1.5) * t.Distance(), lb1, lob1); t.Position(g.uni(-0.5, 1.5) * t.Distance(), lb2, lob2); mk = "coin";
   } else { seg(la1, lo1, la2, lo2, 0.05); seg(lb1, lob1, lb2, lob2, 0.05); }
   GeodesicLine lx = E.g.InverseLine(la1, lo1, la2, lo2, Intersect::LineCaps), ly = E.g.InverseLine(lb1, lob1, lb2, lob2, Intersect::LineCaps);
   double sx = lx.Distance(), sy = ly.Distance();
-  int segmode = -99, c = -9; Intersect::Point p(0, 0);
+  if (mk == "gen") { double t, a1, a2; E.g.Inverse(la1, lo1, lb1, lob1, t, a1, a2); (void) a2; }
+  int segmode = -99, c = -9; Pt p(0, 0);
   string out = guarded([&] { p = E.I.Segment(lx, ly, segmode, &c); });
-  int sm2 = -99, c2 = -9; Intersect::Point p2(0, 0);
+  int sm2 = -99, c2 = -9; Pt p2(0, 0);
   guarded([&] { p2 = E.I.Segment(la1, lo1, la2, lo2, lb1, lob1, lb2, lob2, sm2, &c2); });
   double x = p.first, y = p.second;
-  Rec r; r.str("e", "xs").i("id", id).i("fi", E.fi).b("ex", E.exact).str("mk", mk).str("out", out).i("c", c).i("segmode", segmode);
+  DBG(id, "xs a=%.17g f=%.17g exact=%d X=(%.17g %.17g)-(%.17g %.17g) Y=(%.17g %.17g)-(%.17g %.17g) sx=%.17g sy=%.17g -> x=%.17g y=%.17g c=%d segmode=%d\n", E.a, E.f, (int) E.exact, la1, lo1, la2, lo2, lb1, lob1, lb2, lob2, sx, sy, p.first, p.second, c, segmode);
+  Rec r; r.str("e", "xs").i("id", id).i("fi", E.fi).b("ex", E.exact).str("mk", mk).str("out", out).i("segmode", segmode);
   r.b("same", vt::bits(x) == vt::bits(p2.first) && vt::bits(y) == vt::bits(p2.second) && c == c2 && segmode == sm2);
   r.b("fin", std::isfinite(x) && std::isfinite(y));
   r.i("x0", sgn(x)).i("x1", sgn(x - sx)).i("y0", sgn(y)).i("y1", sgn(y - sy));       // exact comparisons against the segment ends
-  r.i("sxq", uq((LD)sx / (PIL * std::min(E.a, E.a * (1 - E.f))), 1e-6L)).i("syq", uq((LD)sy / (PIL * std::min(E.a, E.a * (1 - E.f))), 1e-6L));
-  r.i("z", zres(E, lx, ly, x, y));
-  // distance (nm, signed) by which the result lies inside the closed rectangle [0,sx] x [0,sy] (negative = outside)
-  LD ins = min(min((LD)x, (LD)sx - x), min((LD)y, (LD)sy - y));
-  r.i("ins", sq(ins * E.sc, 1e-9L));
+  r.i("sxq", uq((LD)sx / (PIL * E.minr), 1e-6L)).i("syq", uq((LD)sy / (PIL * E.minr), 1e-6L));
+  Hit h = hit(E, lx, ly, x, y); put_hit(r, E, p, h, c);
   // all intersections around the midpoints that could lie in the rectangle or be closer to the midpoints than the result
-  LD d0 = l1(x, y, sx / 2, sy / 2);
+  Pt mid(sx / 2, sy / 2); LD d0 = l1(p, mid);
   double R = double(max(d0, ((LD)sx + sy) / 2)) + 1000 / E.sc;
-  vector<int> cs; vector<Intersect::Point> all;
-  string aout = guarded([&] { all = E.I.All(lx, ly, R, cs, Intersect::Point(sx / 2, sy / 2)); });
-  LD dmin = 1e300L, inall = 1e300L, insmax = -1e300L;
-  for (auto& q : all) {
-    dmin = min(dmin, l1(q.first, q.second, sx / 2, sy / 2) - d0); inall = min(inall, l1(q.first, q.second, x, y));
-    insmax = max(insmax, min(min((LD)q.first, (LD)sx - q.first), min((LD)q.second, (LD)sy - q.second)));
+  vector<int> cs; vector<Pt> all;
+  string aout = guarded([&] { all = E.I.All(lx, ly, R, cs, mid); });
+  Cmp m = cmp_all(E, lx, ly, p, mid, all, h.sn);
+  // depth (signed, across the lines) by which a listed intersection lies inside the closed rectangle [0,sx] x [0,sy]: the largest one
+  LD insmax = -1e300L; ll anyc = 0;
+  for (size_t i = 0; i < all.size(); ++i) {
+    auto& q = all[i]; LD sn = hit(E, lx, ly, q.first, q.second).sn;
+    insmax = max(insmax, min(min((LD)q.first, (LD)sx - q.first), min((LD)q.second, (LD)sy - q.second)) * sn);
+    if (i < cs.size() && cs[i]) anyc = 1;
   }
-  ll anyc = 0; for (int v : cs) if (v) anyc = 1;
-  r.str("aout", aout).i("na", (ll) all.size()).i("dmin", all.empty() ? 0 : sq(dmin * E.sc, 1e-9L)).i("inall", all.empty() ? -1 : uq(inall * E.sc, 1e-9L));
-  r.i("insmax", all.empty() ? -2000000000LL : sq(insmax * E.sc, 1e-9L)).i("anyc", anyc);
+  r.str("aout", aout).i("na", m.n).i("dminc", m.dminc).i("inallc", m.inallc);
+  r.i("insmax", all.empty() ? -2000000000LL : sq(insmax * E.sc, 1e-9L)).i("anyc", anyc).str("kf", mk == "coin" ? "int-seg-coincident" : "none");
   r.emit();
 }
 
 static void rec_xa(vt::Rng& g, ll id) {
   XE& E = *xearth(g); Ln X, Y; string mk = rlines(g, E, X, Y);
-  double p0x = 0, p0y = 0; if (g.range(0, 2) == 0) { p0x = g.uni(-2, 2) * PIL * E.a; p0y = g.uni(-2, 2) * PIL * E.a; }
+  Pt p0(0, 0); if (g.range(0, 2) == 0) p0 = Pt(g.uni(-2, 2) * PIL * E.a, g.uni(-2, 2) * PIL * E.a);
   double R = g.uni(0, 4.5) * PIL * E.a; if (g.range(0, 7) == 0) R = g.uni(0, 0.3) * PIL * E.a;
   GeodesicLine lx = E.g.Line(X.lat, X.lon, X.azi, Intersect::LineCaps), ly = E.g.Line(Y.lat, Y.lon, Y.azi, Intersect::LineCaps);
-  vector<int> cs; vector<Intersect::Point> all;
-  string out = guarded([&] { all = E.I.All(lx, ly, R, cs, Intersect::Point(p0x, p0y)); });
-  vector<Intersect::Point> all1;      // the overload without the coincidence vector, position + azimuth interface
-  guarded([&] { all1 = E.I.All(X.lat, X.lon, X.azi, Y.lat, Y.lon, Y.azi, R, Intersect::Point(p0x, p0y)); });
+  vector<int> cs; vector<Pt> all;
+  string out = guarded([&] { all = E.I.All(lx, ly, R, cs, p0); });
+  vector<Pt> all1;      // the overload without the coincidence vector, position + azimuth interface
+  guarded([&] { all1 = E.I.All(X.lat, X.lon, X.azi, Y.lat, Y.lon, Y.azi, R, p0); });
   bool same = all1.size() == all.size() && cs.size() == all.size();
   for (size_t i = 0; same && i < all.size(); ++i) same = vt::bits(all[i].first) == vt::bits(all1[i].first) && vt::bits(all[i].second) == vt::bits(all1[i].second);
+  DBG(id, "xa a=%.17g f=%.17g exact=%d X=(%.17g %.17g %.17g) Y=(%.17g %.17g %.17g) p0=(%.17g %.17g) R=%.17g\n", E.a, E.f, (int) E.exact, X.lat, X.lon, X.azi, Y.lat, Y.lon, Y.azi, p0.first, p0.second, R);
+  for (size_t i = 0; i < all.size(); ++i) DBG(id, "  [%zu] x=%.17g y=%.17g c=%d d=%.17g\n", i, all[i].first, all[i].second, cs[i], Intersect::Dist(all[i], p0));
   Rec r; r.str("e", "xa").i("id", id).i("fi", E.fi).b("ex", E.exact).str("mk", mk).str("out", out).i("n", (ll) all.size()).b("same", same);
   r.i("Rq", uq((LD)R / (PIL * E.a), 1e-6L));
-  LD srt = 1e300L, sep = 1e300L, over = -1e300L; ll zmax = 0, anyc = 0, cbad = 0; bool fin = true;
+  LD srt = 1e300L, sepc = 1e300L, over = -1e300L, snmin = 1; ll zmax = 0, anyc = 0, cbad = 0, um = 0; bool fin = true;
+  vector<Hit> hs; for (auto& q : all) hs.push_back(hit(E, lx, ly, q.first, q.second));
   for (size_t i = 0; i < all.size(); ++i) {
-    LD di = l1(all[i].first, all[i].second, p0x, p0y);
     fin = fin && std::isfinite(all[i].first) && std::isfinite(all[i].second);
-    over = max(over, (LD)Intersect::Dist(all[i], Intersect::Point(p0x, p0y)) - (LD)R);
-    if (i + 1 < all.size()) srt = min(srt, l1(all[i + 1].first, all[i + 1].second, p0x, p0y) - di);
-    for (size_t j = i + 1; j < all.size(); ++j) sep = min(sep, l1(all[i].first, all[i].second, all[j].first, all[j].second));
-    double aX, aY; zmax = max(zmax, zres(E, lx, ly, all[i].first, all[i].second, &aX, &aY));
-    if (i < cs.size() && cs[i]) { anyc = 1; if (uq(sind_(angdiff(aX, aY)), 1e-9L) > 1000 || (cs[i] > 0) != (fabs(angdiff(aX, aY)) < 90)) cbad = 1; }
+    over = max(over, (LD)Intersect::Dist(all[i], p0) - (LD)R);                            // the documented distance function, in doubles
+    if (i + 1 < all.size()) srt = min(srt, (LD)Intersect::Dist(all[i + 1], p0) - (LD)Intersect::Dist(all[i], p0));
+    for (size_t j = i + 1; j < all.size(); ++j) sepc = min(sepc, l1(all[i], all[j]) * min(hs[i].sn, hs[j].sn));
+    zmax = max(zmax, hs[i].z); snmin = min(snmin, hs[i].sn); um = max(um, ulpq(E, all[i].first, all[i].second));
+    if (i < cs.size() && cs[i]) { anyc = 1; if (hs[i].sn > 1e-6L || (cs[i] > 0) == hs[i].anti) cbad = 1; }
   }
-  r.b("fin", fin).i("srt", all.size() > 1 ? sq(srt * E.sc, 1e-9L) : 0).i("sep", all.size() > 1 ? uq(sep * E.sc, 1.0L) : 2000000000LL);
-  r.i("over", all.empty() ? -1 : sq(over * E.sc, 1e-9L)).i("zmax", zmax).i("anyc", anyc).i("cbad", cbad);
+  r.b("fin", fin).i("srt", all.size() > 1 ? sq(srt * E.sc, 1e-9L) : 0).i("sepc", all.size() > 1 ? uq(sepc * E.sc, 1e-9L) : 2000000000LL);
+  r.i("over", all.empty() ? -1 : sq(over * E.sc, 1e-9L)).i("zmax", zmax).i("um", um).i("snmin", uq(snmin, 1e-9L)).i("anyc", anyc).i("cbad", cbad);
   // consistency with a smaller radius (a different tiling of the plane)
-  double R2 = R * g.uni(0.2, 0.95); vector<Intersect::Point> sub;
-  string out2 = guarded([&] { sub = E.I.All(lx, ly, R2, Intersect::Point(p0x, p0y)); });
-  ll lo = 0, hi = 0; LD edge = 1e-3L / E.sc;   // elements within 1 mm of the smaller radius may fall on either side
-  for (auto& q : all) { LD d = l1(q.first, q.second, p0x, p0y); if (d <= R2 - edge) ++lo; if (d <= R2 + edge) ++hi; }
+  double R2 = R * g.uni(0.2, 0.95); vector<Pt> sub;
+  string out2 = guarded([&] { sub = E.I.All(lx, ly, R2, p0); });
+  ll lo = 0, hi = 0;        // elements whose distance is within 1 mm (across the lines) of the smaller radius may fall on either side
+  for (size_t i = 0; i < all.size(); ++i) { LD d = l1(all[i], p0), edge = 1e-3L / E.sc / max(hs[i].sn, 1e-12L); if (d <= R2 - edge) ++lo; if (d <= R2 + edge) ++hi; }
   LD submiss = 0;      // every element of the smaller query must be an element of the larger one
-  for (auto& q : sub) { LD m = 1e300L; for (auto& t : all) m = min(m, l1(q.first, q.second, t.first, t.second)); submiss = max(submiss, m); }
-  r.str("out2", out2).i("n2", (ll) sub.size()).i("n2lo", lo).i("n2hi", hi).i("submiss", sub.empty() ? 0 : uq(submiss * E.sc, 1e-9L));
+  for (auto& q : sub) { LD sn = hit(E, lx, ly, q.first, q.second).sn, m = 1e300L; for (auto& t : all) m = min(m, l1(q, t) * sn); submiss = max(submiss, m); }
+  r.str("out2", out2).i("n2", (ll) sub.size()).i("n2lo", lo).i("n2hi", hi).i("submiss", sub.empty() || all.empty() ? (sub.empty() ? 0 : 2000000000LL) : uq(submiss * E.sc, 1e-9L));
   // the closest query with the same origin must return the first element
-  Intersect::Point pc(0, 0); int cc = 0; string outc = guarded([&] { pc = E.I.Closest(lx, ly, Intersect::Point(p0x, p0y), &cc); });
-  LD dc = l1(pc.first, pc.second, p0x, p0y);
-  r.str("outc", outc).i("cin", dc <= (LD)R - edge ? 1 : dc <= (LD)R + edge ? 0 : -1);
-  r.i("cfirst", all.empty() ? -1 : uq((l1(all[0].first, all[0].second, p0x, p0y) - dc) * E.sc, 1e-9L));
+  Pt pc(0, 0); int cc = 0; string outc = guarded([&] { pc = E.I.Closest(lx, ly, p0, &cc); });
+  LD dc = l1(pc, p0), snc = hit(E, lx, ly, pc.first, pc.second).sn, edgec = 1e-3L / E.sc / max(snc, 1e-12L);
+  r.str("outc", outc).i("cin", dc <= (LD)R - edgec ? 1 : dc <= (LD)R + edgec ? 0 : -1);
+  r.i("cfirst", all.empty() ? -1 : uq((l1(all[0], p0) - dc) * min(snc, hs[0].sn) * E.sc, 1e-9L));
   // chain: the intersection next to the first element (lines restarted there) is an element too when it is within the radius
   ll chain = -1, chin = -1;
   if (!all.empty() && cs[0] == 0) {
     double la, lo_, azx, lb, lob, azy; lx.Position(all[0].first, la, lo_, azx); ly.Position(all[0].second, lb, lob, azy);
-    Intersect::Point pn(0, 0); int cn = 0;
+    Pt pn(0, 0); int cn = 0;
     string outn = guarded([&] { pn = E.I.Next(la, lo_, azx, azy, &cn); });
-    if (outn == "ok" && cn == 0) {
-      double qx = all[0].first + pn.first, qy = all[0].second + pn.second; LD dq = l1(qx, qy, p0x, p0y);
+    if (outn == "ok" && cn == 0 && fabs(la) < 89.9) {
+      Pt q(all[0].first + pn.first, all[0].second + pn.second); LD dq = l1(q, p0), sn = hit(E, lx, ly, q.first, q.second).sn;
       chin = dq <= (LD)R - 1000 / E.sc ? 1 : 0;
-      LD m = 1e300L; for (auto& t : all) m = min(m, l1(qx, qy, t.first, t.second)); chain = uq(m * E.sc, 1e-9L);
+      LD m = 1e300L; for (auto& t : all) m = min(m, l1(q, t) * sn); chain = uq(m * E.sc, 1e-9L);
     }
   }
-  r.i("chain", chain).i("chin", chin);
+  // both lines are meridians: azimuth a multiple of 180 degrees, or the starting point within 1e-4 degree of a pole
+  auto merid = [](const Ln& L) { return fabs(sin(L.azi * double(PIL) / 180)) < 1e-9 || fabs(L.lat) > 89.9999; };
+  r.i("chain", chain).i("chin", chin).str("kf", merid(X) && merid(Y) && fabs(E.f) > 0.02 ? "int-all-dup-meridians" : "none");
   r.emit();
 }
+
 
 // ================================================================== nearest neighbour
 struct IntMetric {       // the model's metrics: 0 = |a - b| on the integers, 1 = L1 on a 3 x 3 grid (points 0..8), 2 = discrete 0/1... see NearestNeighbor.tla
@@ -504,7 +567,7 @@ static void nn_search_int(int metric, int bucket, const vector<int>& pts, int q,
   Rec r; r.str("e", "nns").i("m", metric).i("b", bucket).li("pts", vector<ll>(pts.begin(), pts.end())).i("np", (ll) pts.size()).i("q", q)
     .i("k", k).i("maxd", maxd < 0 ? 1000000 : maxd).i("mind", mind).b("exh", exh).i("tol", tol).str("out", out).li("dq", dq)
     .li("ind", vector<ll>(ind.begin(), ind.end())).i("d", dret).b("lat", true)
-    .b("rtsame", ind2 == ind && ind3 == ind && d2 == dret && d3 == dret);
+    .b("rtsame", ind2 == ind && ind3 == ind && d2 == dret && d3 == dret).str("kf", tol > 0 && maxd >= 0 ? "nn-tol-maxdist" : "none");
   r.emit();
 }
 
@@ -514,11 +577,11 @@ struct GeoMetric {
   const Geodesic* g;
   double operator()(const pair<double, double>& a, const pair<double, double>& b) const { double s; g->Inverse(a.first, a.second, b.first, b.second, s); return s; }
 };
-struct GridMetric {   // integer-valued points in the plane; kind 0: L1, 1: Linf, 2: Euclid (sqrt is correctly rounded: monotone, ties preserved)
-  int kind;
-  double operator()(const pair<double, double>& a, const pair<double, double>& b) const {
+struct GridMetric {   // integer-valued points in the plane; kind 0: L1, 1: Linf, 2: weighted L1 (2 dx + 3 dy).  All three are exact in
+  int kind;           // doubles, so that the triangle inequality the class demands holds exactly (a rounded Euclidean distance violates
+  double operator()(const pair<double, double>& a, const pair<double, double>& b) const {   // it by an ulp for collinear lattice points)
     double dx = fabs(a.first - b.first), dy = fabs(a.second - b.second);
-    return kind == 0 ? dx + dy : kind == 1 ? max(dx, dy) : sqrt(dx * dx + dy * dy);
+    return kind == 0 ? dx + dy : kind == 1 ? max(dx, dy) : 2 * dx + 3 * dy;
   }
 };
 struct Ranker {
@@ -565,7 +628,7 @@ template<class M> static void nn_random(vt::Rng& g, ll id, const M& d, const vec
     vector<ll> dqr; for (double x : dq) dqr.push_back(R(x));
     Rec r; r.str("e", "nns").i("id", id).i("m", 100 + mkind).i("b", bucket).i("np", (ll) n).i("k", k).i("maxd", R(maxd)).i("mind", R(mind)).b("exh", exh).i("tol", 0)
       .str("out", out).li("dq", dqr).li("ind", vector<ll>(ind.begin(), ind.end())).i("d", dret == -1 ? -1 : R(dret)).b("lat", false)
-      .b("rtsame", ind2 == ind && ind3 == ind && vt::bits(d2) == vt::bits(dret) && vt::bits(d3) == vt::bits(dret));
+      .b("rtsame", ind2 == ind && ind3 == ind && vt::bits(d2) == vt::bits(dret) && vt::bits(d3) == vt::bits(dret)).str("kf", "none");
     r.emit();
   }
 }
@@ -618,6 +681,9 @@ static void replay() {
       if (t[0] == "ic") {
         int c = -9; Intersect::Point p(0, 0); string out = guarded([&] { p = I.Closest(latA, lonA, aziA, latB, lonB, aziB, Intersect::Point(p0x, p0y), &c); });
         vector<ll> q; halfq(q, p.first); halfq(q, p.second); r.str("out", out).li("p", q).i("c", c);
+        // for coincident circles: the invariant of the coincidence line y - c x and the L1 distance from the origin
+        vector<ll> lin, l1q; halfq(lin, p.second - c * p.first); halfq(l1q, double(fabsl((LD)p.first - p0x) + fabsl((LD)p.second - p0y)));
+        r.li("lin", lin).li("l1", l1q);
       } else if (t[0] == "in") {
         int c = -9; Intersect::Point p(0, 0); string out = guarded([&] { p = I.Next(latA, lonA, aziA, aziB, &c); });
         vector<ll> q; halfq(q, p.first); halfq(q, p.second); r.str("out", out).li("p", q).i("c", c);
@@ -657,6 +723,7 @@ static void do_record(uint64_t seed, ll n) {
 int main(int argc, char** argv) {
   vt::install_terminate();
   if (argc >= 2 && string(argv[1]) == "replay") { replay(); return 0; }
+  if (argc >= 5 && string(argv[1]) == "record") g_dbg = atoll(argv[4]);
   if (argc >= 4 && string(argv[1]) == "record") { do_record(strtoull(argv[2], 0, 10), atoll(argv[3])); return 0; }
   fprintf(stderr, "usage: drv_constr replay < vectors | record seed n\n"); return 2;
 }
